@@ -348,9 +348,6 @@ func c19File(c *Ctx, k c19Case) (nontrivial bool) {
 		}
 		if k.Raw {
 			want := texts[i]
-			if k.Format == "json" {
-				want = []byte(jsonStripWS(string(texts[i])))
-			}
 			if !bytes.Contains(raws[i], want) {
 				c.Violate(api, "raw-contains-document", shape, cas, nil, detail(fmt.Sprintf("raw %d = %q does not contain %q", i+1, raws[i], want)))
 				return true
